@@ -52,8 +52,10 @@ func (s *c41Rng) next() uint64 {
 	return z ^ (z >> 31)
 }
 
-// owner pattern: byte 0 = owner+1, bytes 1..4 = acquisition serial, byte i>=5 = base[i]^key(owner, serial)
-var c41Base [c41MaxTotal]byte
+// owner pattern: byte 0 = owner+1, bytes 1..4 = acquisition serial, byte i>=5 = base[shift(owner, serial)+i]
+// (a window into a fixed pseudo-random table: filled and compared with bulk copy / bytes.Equal, because per-byte
+// loops are ~100x slower under the race detector)
+var c41Base [2 * c41MaxTotal]byte
 
 func init() {
 	s := c41Rng(0x6335_3431)
@@ -65,13 +67,13 @@ func init() {
 	}
 }
 
-func c41Key(owner int, serial uint32) byte {
+func c41Shift(owner int, serial uint32) int {
 	s := c41Rng(uint64(owner)<<32 | uint64(serial))
-	return byte(s.next())
+	return int(s.next() % c41MaxTotal)
 }
 
 // c41Fill writes content[from : from+len(dst)] of the pattern of (owner, serial) into dst.
-func c41Fill(dst []byte, from, owner int, serial uint32, key byte) {
+func c41Fill(dst []byte, from, owner int, serial uint32, shift int) {
 	j := 0
 	for ; j < len(dst) && from+j < 5; j++ {
 		if i := from + j; i == 0 {
@@ -80,11 +82,31 @@ func c41Fill(dst []byte, from, owner int, serial uint32, key byte) {
 			dst[j] = byte(serial >> (8 * (i - 1)))
 		}
 	}
-	src := c41Base[from+j : from+len(dst)]
-	d := dst[j:]
-	for k := range src {
-		d[k] = src[k] ^ key
+	copy(dst[j:], c41Base[shift+from+j:shift+from+len(dst)])
+}
+
+// c41Diff returns -1 if got is exactly the first len(got) bytes of the pattern, else the first differing index.
+func c41Diff(got []byte, owner int, serial uint32, shift int) int {
+	var hdr [5]byte
+	c41Fill(hdr[:], 0, owner, serial, shift)
+	for i := 0; i < len(got) && i < 5; i++ {
+		if got[i] != hdr[i] {
+			return i
+		}
 	}
+	if len(got) <= 5 {
+		return -1
+	}
+	exp := c41Base[shift+5 : shift+len(got)]
+	if bytes.Equal(got[5:], exp) {
+		return -1
+	}
+	for i := range exp {
+		if got[5+i] != exp[i] {
+			return 5 + i
+		}
+	}
+	return -1
 }
 
 // size of one write: 0, tiny, clustered around the boundary b (the cap, or bytes.Buffer's first allocation of 64),
@@ -166,7 +188,7 @@ func (e *c41Env) report(d evid.Disc) {
 type c41Held struct {
 	b      *bytes.Buffer
 	serial uint32
-	key    byte
+	shift  int
 	n      int
 }
 
@@ -238,7 +260,7 @@ func (w *c41Worker) get() bool {
 		w.st.fresh++
 	}
 	w.serial++
-	w.held = append(w.held, c41Held{b: b, serial: w.serial, key: c41Key(w.id, w.serial)})
+	w.held = append(w.held, c41Held{b: b, serial: w.serial, shift: c41Shift(w.id, w.serial)})
 	return true
 }
 
@@ -254,7 +276,7 @@ func (w *c41Worker) write(h *c41Held, n int, how uint64) {
 		n = c41MaxTotal - h.n
 	}
 	chunk := w.scratch[:n]
-	c41Fill(chunk, h.n, w.id, h.serial, h.key)
+	c41Fill(chunk, h.n, w.id, h.serial, h.shift)
 	switch {
 	case how%8 == 0 && n <= 200:
 		for _, x := range chunk {
@@ -279,19 +301,20 @@ func (w *c41Worker) write(h *c41Held, n int, how uint64) {
 func (w *c41Worker) verify(h *c41Held, when string) bool {
 	w.st.verifies++
 	got := h.b.Bytes()
-	exp := w.scratch[:h.n]
-	c41Fill(exp, 0, w.id, h.serial, h.key)
-	if h.b.Len() == h.n && bytes.Equal(got, exp) {
+	if len(got) > c41MaxTotal {
+		got = got[:c41MaxTotal]
+	}
+	at := c41Diff(got, w.id, h.serial, h.shift)
+	if h.b.Len() == h.n && at < 0 {
 		return true
 	}
-	at := -1
-	for i := 0; i < len(got) && i < len(exp); i++ {
-		if got[i] != exp[i] {
-			at = i
-			break
-		}
+	var hdr [12]byte
+	exp := hdr[:]
+	if h.n < len(exp) {
+		exp = exp[:h.n]
 	}
-	w.e.report(evid.D(w.sig("contents-changed-while-owned"), "worker %d, %s: buffer %p (acquisition %d) should hold the %d bytes this worker wrote, but has Len()=%d, first difference at %d (head %x, expected head %x)",
+	c41Fill(exp, 0, w.id, h.serial, h.shift)
+	w.e.report(evid.D(w.sig("contents-changed-while-owned"), "worker %d, %s: buffer %p (acquisition %d) should hold the %d bytes this worker wrote, but has Len()=%d, first difference at %d (-1: only the length differs; head %x, expected head %x)",
 		w.id, when, h.b, h.serial, h.n, h.b.Len(), at, c41Head(got), c41Head(exp)))
 	return false
 }
